@@ -437,10 +437,18 @@ func genSMServer(r *RNG, n int, op string, emit func(string)) {
 				segs = append(segs, hex.EncodeToString(simpleMsg(272, 0x80, 4, 7, 7, diam.NewAVP(263, 0x40, 0, datatype.UTF8String("s")))))
 			}
 		default:
+			var prev []byte
 			for s, ns := 0, 1+r.Intn(5); s < ns; s++ {
 				var seg []byte
 				for k, nk := 0, 1+r.Intn(3); k < nk; k++ {
-					seg = append(seg, histMessage(r, &serial)...)
+					m := histMessage(r, &serial)
+					// retransmissions: the very same message (same identifiers) again, as sm.Client's
+					// CER and DWR retransmission loops send it
+					if prev != nil && r.Chance(25) {
+						m = prev
+					}
+					prev = m
+					seg = append(seg, m...)
 				}
 				segs = append(segs, hex.EncodeToString(seg))
 			}
